@@ -6,7 +6,7 @@ From Coq Require Import List Bool Arith NArith.
 From Verif Require Import Trie.Proof Trie.BatchModel Trie.BatchBasics Trie.BatchSerial Trie.BatchRep
   Trie.BatchRefine1 Trie.BatchRefine3 Trie.BatchRefine4 Trie.BatchRefine5.
 From Verif Require Import Trie.Model Trie.Basics Trie.Masc Trie.GetUpdate Trie.Canon Trie.History Trie.HashBind
-  Trie.Store Trie.StoreProofs Trie.F1 Trie.ProofComplete Trie.RevertModel Trie.RevertProofs.
+  Trie.Store Trie.StoreProofs Trie.F1 Trie.ProofComplete Trie.RevertModel Trie.RevertProofs Trie.StateDBModel.
 Import ListNotations.
 
 (** Map semantics of one Update: Get of any key returns the batch's value for it (None for
@@ -273,3 +273,65 @@ Theorem C10_revert_restores_past_root_refuted :
   In (th ex_H 0 (repeat false 256) (Lf [] (ex_v 1))) (all_roots ex_H 256 [] rv_target).
 Proof. exact revert_target_lost_alias. Qed.
 Print Assumptions C10_revert_restores_past_root_refuted.
+
+(** ---- statedb level (state/statedb): account trie over per-contract storage tries ---- *)
+
+(** The invariant of the two-level state (every account leaf is the hash of the stored state,
+    and the StorageRoot field of that state is the root of the contract's storage trie) holds
+    for the empty state, and is kept by every staged contract / account of a block. *)
+Theorem C10_statedb_invariant_empty :
+  forall (H : bytes -> bytes) (acct : Type) (marshal sroot : acct -> bytes),
+  sdb_ok H marshal sroot (@empty_sdb acct).
+Proof. exact empty_ok. Qed.
+Print Assumptions C10_statedb_invariant_empty.
+
+Theorem C10_statedb_invariant_kept :
+  forall (H : bytes -> bytes) (acct : Type) (marshal sroot : acct -> bytes) (set_sroot : acct -> bytes -> acct),
+  (forall a r, sroot (set_sroot a r) = r) ->
+  forall s ka st ws, sdb_ok H marshal sroot s -> length ka = 256 -> ws_ok ws ->
+    sdb_ok H marshal sroot (stage_contract H marshal set_sroot s ka st ws).
+Proof. exact stage_keeps_ok. Qed.
+Print Assumptions C10_statedb_invariant_kept.
+
+(** storage_root_handover: after a block staged storage writes [ws] of contract [ka], the
+    account leaf of [ka] is the hash of a state with the same payload whose StorageRoot is the
+    root of the UPDATED storage trie, and reading a variable through that leaf returns the
+    overridden contents (map semantics per contract at the new state root). *)
+Theorem C10_storage_root_handover :
+  forall (H : bytes -> bytes) (acct pl : Type) (marshal sroot : acct -> bytes) (payload : acct -> pl)
+    (set_sroot : acct -> bytes -> acct),
+  (forall a r, sroot (set_sroot a r) = r) -> (forall a r, payload (set_sroot a r) = payload a) ->
+  forall s ka st ws, sdb_ok H marshal sroot s -> length ka = 256 -> ws_ok ws ->
+  exists st', table (stage_contract H marshal set_sroot s ka st ws) ka = Some st' /\ payload st' = payload st /\
+    sroot st' = root H 256 (stor (stage_contract H marshal set_sroot s ka st ws) ka) /\
+    get (accs (stage_contract H marshal set_sroot s ka st ws)) ka = Some (leaf_of H marshal st') /\
+    forall kv, length kv = 256 ->
+      read_var (stage_contract H marshal set_sroot s ka st ws) ka kv = override ws (get (stor s ka)) kv.
+Proof. exact storage_root_handover. Qed.
+Print Assumptions C10_storage_root_handover.
+
+(** A block that deletes the LAST keys of a contract hands over the EMPTY storage root: the
+    storage trie is the empty tree and the account's StorageRoot is empty. *)
+Theorem C10_emptied_storage_empty_root :
+  forall (H : bytes -> bytes) (acct : Type) (marshal sroot : acct -> bytes) (set_sroot : acct -> bytes -> acct),
+  (forall a r, sroot (set_sroot a r) = r) ->
+  forall s ka st ws, sdb_ok H marshal sroot s -> length ka = 256 -> ws_ok ws ->
+  (forall kv, length kv = 256 -> override ws (get (stor s ka)) kv = None) ->
+  stor (stage_contract H marshal set_sroot s ka st ws) ka = E /\
+  exists st', table (stage_contract H marshal set_sroot s ka st ws) ka = Some st' /\ sroot st' = [].
+Proof. exact emptied_storage_empty_root. Qed.
+Print Assumptions C10_emptied_storage_empty_root.
+
+(** History independence at the state level: two states satisfying the invariant, whatever
+    blocks produced them, with the same account payloads and the same storage contents have
+    the same account trie, hence the same state root. *)
+Theorem C10_state_root_determined_by_contents :
+  forall (H : bytes -> bytes) (acct pl : Type) (marshal sroot : acct -> bytes) (payload : acct -> pl),
+  (forall a b, payload a = payload b -> sroot a = sroot b -> a = b) ->
+  forall s1 s2, sdb_ok H marshal sroot s1 -> sdb_ok H marshal sroot s2 ->
+  (forall ka, length ka = 256 -> option_map payload (table s1 ka) = option_map payload (table s2 ka)) ->
+  (forall ka kv, length ka = 256 -> length kv = 256 -> table s1 ka <> None ->
+     get (stor s1 ka) kv = get (stor s2 ka) kv) ->
+  accs s1 = accs s2 /\ root H 256 (accs s1) = root H 256 (accs s2).
+Proof. exact state_root_determined_by_contents. Qed.
+Print Assumptions C10_state_root_determined_by_contents.
